@@ -17,7 +17,11 @@ RULE = ("dynamically generated families of SerializableEnum / Serializable class
         "4300-digit ints, unicode incl. astral and lone surrogates, nested objects, enum/int/str dict keys, alias "
         "enum members); malformed stream: wrong-shaped field values for toJson, mutated / truncated / re-keyed "
         "records for fromJson, non-plain data for json.dumps; non-trivial = in-domain object with a nested object "
-        "inside a container or a dict with int/enum keys, or a malformed case that reaches an error branch")
+        "inside a container or a dict with int/enum keys, or a malformed case that reaches an error branch; "
+        "implementation-only oracle streams: enums whose raw values are NOT ints (strings - also spelled like another member's "
+        "name, lower-case, empty -, floats, mixed), in scalar fields, List/Set/Tuple elements, Dict keys and values; "
+        "dumps(indent=, sort_keys=) variants; HISTORIES: the same object converted repeatedly in one process, the objects "
+        "returned by earlier fromJson calls scrambled in place between the calls, x itself must stay unchanged")
 ASSUMPTIONS = [
     "enum raw values are ints, member names are upper case (upper(name) = name) and distinct; attribute names of a class are distinct (wf_ctab)",
     "every field holds a value of its annotated type (ht_obj): container fields hold None or a container of the annotated shape, tuples have the annotated arity, dict keys are int/str/enum, floats are not NaN",
@@ -195,6 +199,13 @@ def enc_ty(t):
     return [5]
 
 
+def enc_ty_names(t):
+    """the shape of a field type as plain data (kinds only)"""
+    if isinstance(t, (tuple, list)):
+        return [enc_ty_names(x) for x in t]
+    return t if isinstance(t, str) else "."
+
+
 def ann_ety(rng, e):
     k = e[0]
     if k in ("int", "float", "bool", "str", "bytes"):
@@ -307,10 +318,31 @@ def default_for(rng, t, fam):
     return None
 
 
-def gen_family(rng, domain=True):
+def gen_enum_any(rng):
+    """an enum whose raw values are not (all) ints: the property speaks of enums, not of int-valued enums.
+    Member names stay upper case and distinct; the raw values are pairwise distinct."""
+    k = rng.randrange(2, 5)
+    names = rng.sample([n for n in UP_NAMES if n.isascii()], k)
+    c = rng.random()
+    if c < 0.35:
+        vals = names[1:] + names[:1]                 # each value is spelled like ANOTHER member's name
+        if rng.random() < 0.5:
+            rng.shuffle(vals)
+    elif c < 0.5:
+        vals = [n.lower() for n in names]
+    elif c < 0.65:
+        vals = rng.sample(["", "a b", "1", "-1", "RED", "green", "null", "é", "0.5", "A"], k)
+    elif c < 0.8:
+        vals = rng.sample([0.5, 1.5, -2.25, 1e300, 0.0009765625], k)
+    else:
+        vals = rng.sample([0, 1, "0", "1", "A", 2.5, "RED", -1], k)
+    return EnumInfo(list(zip(names, vals)))
+
+
+def gen_family(rng, domain=True, enum_gen=None):
     fam = Family()
     for _ in range(rng.randrange(1, 3)):
-        fam.enums.append(gen_enum(rng, domain or rng.random() < 0.5))
+        fam.enums.append(enum_gen(rng) if enum_gen else gen_enum(rng, domain or rng.random() < 0.5))
     for i in range(rng.randrange(1, 5)):
         nf = rng.choice([0, 1, 2, 3, 4, 6])
         names = rng.sample(FIELD_NAMES, nf)
@@ -611,6 +643,61 @@ def oracle_one(run, ci, x, fam):
             run.oracle_violation("loads(dumps(x)) != x", dict(case, got=describe(z)), "Serializable.dumps/loads")
     except Exception as e:   # noqa
         run.oracle_violation("loads(dumps(x))-raises", dict(case, error=repr(e)[:200]), "Serializable.dumps/loads")
+    # the documented keyword arguments of dumps change the text, not the data
+    for kw in ({"indent": 2}, {"sort_keys": True}, {"indent": 0, "sort_keys": True}):
+        try:
+            z = ci.cls.loads(x.dumps(**kw))
+            if not deep_eq(x, z):
+                run.oracle_violation("loads(dumps(x)) != x", dict(case, dumps_kwargs=kw, got=describe(z)), "Serializable.dumps/loads")
+        except Exception as e:   # noqa
+            run.oracle_violation("loads(dumps(x))-raises", dict(case, dumps_kwargs=kw, error=repr(e)[:200]), "Serializable.dumps/loads")
+
+
+def scramble(y):
+    """change in place every container an object returned by fromJson holds (the caller owns that object) and unset its fields"""
+    for f in y._fields:
+        v = getattr(y, f)
+        try:
+            if isinstance(v, list):
+                v.append(v[0] if v else None)
+                v.reverse()
+            elif isinstance(v, set):
+                v.clear()
+            elif isinstance(v, dict):
+                v.clear()
+                v["scrambled"] = None
+            # (a nested object is left alone: it may be the class attribute the user gave as the default)
+            setattr(y, f, None)
+        except Exception:   # noqa  read-only value: nothing to scramble
+            pass
+
+
+def oracle_history(run, ci, x):
+    """the same object through the conversions again and again in one process; what earlier calls returned is
+    scrambled in between; every later conversion must still reproduce x, and x must not have been touched"""
+    site = "Serializable.toJson/fromJson (repeated calls in one process)"
+    case = {"class_fields": [[n, enc_ty(t)] for n, t, a, d in ci.fields], "object": describe(x)}
+    run.evaluations += 1
+    try:
+        x0 = copy.deepcopy(x)
+        for rnd in range(3):
+            j = x.toJson()
+            y = ci.cls.fromJson(j)
+            z = ci.cls.loads(x.dumps())
+            d = ci.cls()                         # a default instance, scrambled too
+            for w, what in ((y, "fromJson(toJson(x)) != x"), (z, "loads(dumps(x)) != x")):
+                if not deep_eq(x0, w):
+                    run.oracle_violation(what, dict(case, call_number=rnd + 1, got=describe(w),
+                                                    note="earlier results were modified in place by their owner"), site)
+                    return
+            if not deep_eq(x0, x):
+                run.oracle_violation("conversion-changes-x", dict(case, call_number=rnd + 1, now=describe(x)), site)
+                return
+            scramble(y); scramble(z); scramble(d)
+            if isinstance(j, dict):
+                j.clear()
+    except Exception as e:   # noqa
+        run.oracle_violation("fromJson(toJson(x))-raises", dict(case, error=repr(e)[:200], note="repeated calls"), site)
 
 
 def nontrivial_obj(x):
@@ -697,6 +784,23 @@ def run(run):
     # ---------------- oracle on the implementation alone
     for fam, ci, x in dom_objs:
         oracle_one(run, ci, x, fam)
+    for fam, ci, x in dom_objs[::3]:
+        oracle_history(run, ci, x)
+    # enums with non-int raw values (outside the model's class tables: implementation-only)
+    nany = 0
+    for _ in range(60 * scale):
+        fam = gen_family(rng, True, enum_gen=gen_enum_any)
+        for ci in fam.classes:
+            uses_enum = any("enum" in json.dumps(enc_ty_names(t)) for n, t, a, d in ci.fields)
+            for _ in range(5 if uses_enum else 1):
+                x = gen_obj(rng, ci)
+                oracle_one(run, ci, x, fam)
+                if uses_enum:
+                    nany += 1
+                    run.nt(("anyenum", repr(x)[:300]))
+                    if nany % 4 == 0:
+                        oracle_history(run, ci, x)
+    run.count("objects_with_non_int_enums", nany)
 
     # ---------------- out-of-domain class tables + malformed values (toJson side)
     fams2 = [gen_family(rng, False) for _ in range(40 * scale)]
